@@ -98,6 +98,8 @@ class Decl:
             style[m] = r.choice(['dbus_', 'deco', 'deco_named'])
         self.style = style
 
+        moved = []          # decorated bindings of base-class interfaces that live in the derived class
+
         def build_class(cname, base, ifs):
             attrs = {'dbusInterfaces': [
                 I.DBusInterface(n, *[I.Method(m, arguments=si, returns=so) for m, (si, so) in ms.items()],
@@ -128,15 +130,26 @@ class Decl:
                             # the decorated function for the first declaring interface is itself called dbus_<member>
                             fname = 'dbus_' + m
                         wants = r.random() < 0.5
+                        if base is O.DBusObject and split_bindings and fname.startswith('impl_') and r.random() < 0.5:
+                            # the interface is declared here, this member is bound by the derived class
+                            moved.append((fname, n, m, nargs, wants))
+                            continue
                         impl_id = '%s.%s' % (cname, fname)
                         attrs[fname] = O.dbusMethod(n, m)(make_impl(fname, impl_id, nargs, wants))
                         self.impl[(n, m)] = (impl_id, wants)
+            if base is not O.DBusObject:
+                for fname, n, m, nargs, wants in moved:
+                    impl_id = '%s.%s' % (cname, fname)
+                    attrs[fname] = O.dbusMethod(n, m)(make_impl(fname, impl_id, nargs, wants))
+                    self.impl[(n, m)] = (impl_id, wants)
             return type(cname, (base,), attrs)
 
+        split_bindings = bool(derived_ifs) and r.random() < 0.5
         Base = build_class('Base%s' % case_id, O.DBusObject, base_ifs)
         cls = Base
         if derived_ifs:
             cls = build_class('Derived%s' % case_id, Base, derived_ifs)
+        self.split_bindings = split_bindings and bool(moved)
         self.cls = cls
         # getInterfaces() walks the MRO: derived class interfaces first, then base, then DBusObject's own
         self.ifaces = derived_ifs + base_ifs
